@@ -267,3 +267,12 @@ def mk_opresult(den_, type=None):
     v = op.results[0]
     _RT[id(v)] = dict(val=den_, keep=op)
     return v
+
+
+def mk_ident_value(tag, type=None):
+    """natively an SSA-value stand-in is just its identity tag (ints compare by value)"""
+    return ("ssa", int(tag))
+
+
+def set_identity(obj, tag):
+    return obj
